@@ -1,3 +1,3 @@
--- This module serves as the root of the `AvroModel` library.
--- Import modules here that should be built as part of the library.
-import AvroModel.Basic
+import AvroModel.Bytes
+import AvroModel.Lemmas.Bytes
+import AvroModel.Props.C17
